@@ -53,6 +53,7 @@ def _check_main(run, P):
     run.do(_map_call, run, P)
     run.do(_identity, run, P)
     run.do(_candidates, run, P)
+    run.do(_no_rewrite, run, P)
     run.do(_match, run, P)
 
 
@@ -237,6 +238,26 @@ def _identity(run, P):
         run.ob("C17.identity", m, calls[0] if calls else m.node, ok,
                construct=f"{name}: identity element {ident}, super().{name} as mapper",
                why="the identity of + is 0 and of * is 1")
+
+
+def _no_rewrite(run, P):
+    """Known bindings are constraints handed to the unifier, never a rewriting of
+    the template: the matcher does not substitute."""
+    f = P.func(f"{MOD}.match")
+    U = P.cls(f"{MOD}._ExtendedUnifier")
+    sites = []
+    for fn in [f] + list(U.methods.values()):
+        for x in ast.walk(fn.node):
+            if isinstance(x, ast.Call):
+                d = (dotted(x.func) or "").split(".")[-1]
+                if d in ("substitute", "SubstitutionMapper", "make_subst_func"):
+                    sites.append((fn, x))
+    run.ob("C17.prematch", sites[0][0] if sites else f, sites[0][1] if sites else f.node, not sites,
+           construct="match / _ExtendedUnifier never substitute into the template"
+                     + (f" (found {norm(sites[0][1], 50)} in {sites[0][0].qualname})" if sites else ""),
+           why="the values of known bindings are terms of the target: put into the template, a "
+               "target variable that is called like a free template variable is captured and "
+               "re-bound (f(a,b) ~ f(c,c) with a=b gives {a: b, b: c}, whose instance is f(b,c))")
 
 
 def _candidates(run, P):
